@@ -42,7 +42,7 @@ def _core_prop(pid, title, fields, technique, level_text, level_note, rule=None,
         level_text=level_text,
         level_note=level_note,
         design_ref="§8 " + pid,
-        rule=rule or "core stream: PRNG histories over 2-6 replicas, 1-4 writers, 3 orderings of append/join/joinN/load/iterate/setIdentity followed by a complete exchange; distinct = distinct operation-shape hashes; non-trivial = at least one fork (two replicas appending concurrently) and one join of overlapping logs",
+        rule=rule or "core stream: PRNG histories over 2-6 replicas (one in 16 wide: 7-9 writers), 3 orderings (one history in 4 gives every replica its own), of append (a quarter pinned; reserved payloads in access-control histories)/join/joinN/load/iterate/setIdentity, a third of the tie and non-default-ordering histories starting flat (every replica appends once, two merge everybody), followed by a complete exchange; distinct = distinct operation-shape hashes; non-trivial = at least one fork (two replicas appending concurrently) and one join of overlapping logs",
     )
 
 CORE_NOTE = ("Trusted: Lean kernel; content addressing (an append is given a fresh hash: distinct entries have distinct CIDs — SHA-256 collision freedom); "
